@@ -210,7 +210,8 @@ class Result:
     pass
 
 
-def serve(kind, cfg, segments, app, peer=("127.0.0.1", 45678), worker=None, maxloops=20, **sockkw):
+def serve(kind, cfg, segments, app, peer=("127.0.0.1", 45678), worker=None, maxloops=20, eof_dispatch=False,
+          **sockkw):
     """One connection through the real handle().  Returns a Result with
     wire, closed, escaped (exception class that escaped handle, or None), access (records),
     nr, alive, kept (connection left open by the worker), loops (handle() invocations)."""
@@ -220,6 +221,7 @@ def serve(kind, cfg, segments, app, peer=("127.0.0.1", 45678), worker=None, maxl
     r = Result()
     r.escaped = None
     r.kept_until_eof = False
+    r.eof_dispatched = False
     r.loops = 0
     nacc0 = len(w._cap.records)
     try:
@@ -250,9 +252,13 @@ def serve(kind, cfg, segments, app, peer=("127.0.0.1", 45678), worker=None, maxl
                     w._keep.remove(conn)
                     w.poller.unregister(conn.sock)
                     if not sock.more_input():
-                        # idle keep-alive connection; client sends nothing more: reaped later
+                        # idle keep-alive connection; client sends nothing more
                         r.kept = True
-                        break
+                        if not eof_dispatch:
+                            break
+                        # the client closes: the poller reports the socket readable, the request is
+                        # dispatched again and the handler meets end of file
+                        r.eof_dispatched = True
                     continue
                 r.kept = False
                 break
